@@ -51,6 +51,21 @@ def expNegBounds (x : Q) : Q × Q :=
   let sq := fun (v : Q) => (List.range k).foldl (fun a _ => a * a) v
   (sq (if lo0 < 0 then 0 else lo0), sq hi0)
 
+/-! ### parametric structures with a rational or exponential closed form at particular parameters -/
+
+/-- polynomial factor of the Matern correlation `2 (h/2)^ν K_ν(h) / Γ(ν)` for half-integer `ν`:
+`ν = 1/2 : 1`, `ν = 3/2 : 1 + h`, `ν = 5/2 : 1 + h + h²/3` (times `exp(-h)`) -/
+def maternHalfPoly (twoNu : Nat) (h : Q) : Option Q :=
+  match twoNu with
+  | 1 => some 1
+  | 3 => some (1 + h)
+  | 5 => some (1 + h + h * h / 3)
+  | _ => none
+
+/-- `CovGamma`: `1 / (1 + h)^α`, `CovCauchy`: `1 / (1 + h²)^α`, integer `α` -/
+def gammaCov (alpha : Nat) (h : Q) : Q := 1 / powQ (1 + h) alpha
+def cauchyCov (alpha : Nat) (h : Q) : Q := 1 / powQ (1 + h * h) alpha
+
 /-! ### reduced distance under an anisotropy: `|S⁻¹ Rᵗ (x - y)|²` (squared: stays rational) -/
 def redDist2 (R : List (List Q)) (scales : List Q) (d : List Q) : Q :=
   let v := R.map (fun row => (List.zipWith (· * ·) row d).sum)      -- rows of R = axes
